@@ -192,7 +192,11 @@ CUSTOM_FIELD_END = 0xc1
 def _decode_custom_fields(data):
     offset = 0
     fields = []
-    while data[offset] != CUSTOM_FIELD_END:
+    while True:
+        if offset >= len(data):
+            raise DecodingError('no end-of-fields marker in the info area')
+        if data[offset] == CUSTOM_FIELD_END:
+            break
         field = FruTypeLengthString(data, offset)
         fields.append(field)
         offset += field.length + 1
@@ -234,6 +238,8 @@ class CommonInfoArea(FruData):
             raise DecodingError('invalid info area length (%d)' % self.length)
         if sum(data[:self.length]) % 256 != 0:
             raise DecodingError('checksum failed')
+        # the fields lie inside the area, before its checksum byte
+        return data[:self.length - 1]
 
 
 class InventoryChassisInfoArea(CommonInfoArea):
@@ -262,7 +268,7 @@ class InventoryChassisInfoArea(CommonInfoArea):
     TYPE_RACK_MOUNT_CHASSIS = 23
 
     def _from_data(self, data):
-        CommonInfoArea._from_data(self, data)
+        data = CommonInfoArea._from_data(self, data)
         self.type = data[2]
         offset = 3
         self.part_number = FruTypeLengthString(data, offset)
@@ -274,7 +280,7 @@ class InventoryChassisInfoArea(CommonInfoArea):
 
 class InventoryBoardInfoArea(CommonInfoArea):
     def _from_data(self, data):
-        CommonInfoArea._from_data(self, data)
+        data = CommonInfoArea._from_data(self, data)
         self.language_code = data[2]
         minutes = data[5] << 16 | data[4] << 8 | data[3]
         self.mfg_date = (datetime.datetime(1996, 1, 1)
@@ -295,7 +301,7 @@ class InventoryBoardInfoArea(CommonInfoArea):
 
 class InventoryProductInfoArea(CommonInfoArea):
     def _from_data(self, data):
-        CommonInfoArea._from_data(self, data)
+        data = CommonInfoArea._from_data(self, data)
         self.language_code = data[2]
         offset = 3
         self.manufacturer = FruTypeLengthString(data, offset)
